@@ -161,6 +161,10 @@ type World struct {
 	Faults         map[[2]int]Fault
 	CloseErr       map[int]error
 	CloseFailRegs  map[int]bool // every instance of these registrations fails in Close
+	// CancelBuildOnFault: the constructor that is made to fail first cancels the context its
+	// BuildWithContext runs under (a dial that gives up when the deadline of the build passes)
+	CancelBuildOnFault bool
+	BuildCancel        func()
 	ClosePanicRegs map[int]bool // the Close method of every instance of these registrations panics
 	// CtxWaitRegs: the constructors of these registrations do not return until the context
 	// they were injected with is done (a dial that can only be aborted through its context);
@@ -552,17 +556,20 @@ func (w *World) invoke(r *Reg, ft reflect.Type, args []reflect.Value) []reflect.
 	case FaultPanic:
 		inv.Outcome = 3
 		inv.EndSeq = w.NextSeq()
+		w.faultFires()
 		panic(f.Panic)
 	case FaultError:
 		if r.HasErr {
 			inv.Outcome = 2
 			inv.EndSeq = w.NextSeq()
 			res[nout-1] = reflect.ValueOf(&f.Err).Elem()
+			w.faultFires()
 			return res
 		}
 	case FaultNil:
 		// only interface-typed single results: a nil pointer is a value like any other
 		if r.Form == FormPlain && IsIface(r.Outs[0].T) {
+			w.faultFires()
 			inv.Outcome = 4
 			inv.EndSeq = w.NextSeq()
 			return res
@@ -659,11 +666,13 @@ func (w *World) invokeStatic(r *Reg, args []any) (any, error) {
 	case FaultPanic:
 		inv.Outcome = 3
 		inv.EndSeq = w.NextSeq()
+		w.faultFires()
 		panic(f.Panic)
 	case FaultError:
 		if r.HasErr {
 			inv.Outcome = 2
 			inv.EndSeq = w.NextSeq()
+			w.faultFires()
 			return nil, f.Err
 		}
 	}
@@ -675,6 +684,23 @@ func (w *World) invokeStatic(r *Reg, args []any) (any, error) {
 	e.BornSeq = end
 	inv.Outcome = 1
 	return obj.Interface(), nil
+}
+
+func (w *World) SetBuildCancel(c func()) {
+	w.mu.Lock()
+	w.BuildCancel = c
+	w.mu.Unlock()
+}
+
+// faultFires: see CancelBuildOnFault.
+func (w *World) faultFires() {
+	w.mu.Lock()
+	c := w.BuildCancel
+	on := w.CancelBuildOnFault
+	w.mu.Unlock()
+	if on && c != nil {
+		c()
+	}
 }
 
 // heldTargets lists the freshly made instances inside a result list.
